@@ -25,7 +25,9 @@ ANYSET = None
 class LexProbe:
     EXTRA = ["|", ";", "[", "]", "λ", " ", "\n", '"', "'", "(", "X", "v"]
 
-    def __init__(self, repo: Repo, interp: Interp | None = None):
+    def __init__(self, repo: Repo, interp: Interp | None = None,
+                 thorough: bool = False):
+        self.thorough = thorough
         self.repo = repo
         self.it = interp or Interp(repo)
         self.mod = repo.mod("lexer")
@@ -149,7 +151,9 @@ class LexProbe:
         self.alpha_sigs: dict[str, set] = {k: set() for k in self.kinds}
         crit = [c for c in reps if c in "`»«\\‛#\n|°.0" or c == self.other]
         probes = [""] + reps + [a + b for a in reps for b in reps] + [
-            a + b + c for a in reps for b in crit for c in crit]
+            a + b + c for a in reps
+            for b in (reps if self.thorough else crit)
+            for c in (reps if self.thorough else crit)]
         for s in probes:
             r = self.run(s)
             if isinstance(r, tuple):
